@@ -66,12 +66,38 @@ pub fn run(args: &Args, r: &mut Report) {
         }
         case.script.checks.push(gen_check(&mut rng, &apps, Path::NoUpdate, cfg.cup, true, false).0);
         case.script.decisions.push(Decision::Ok(ParamsSnap::default_lib()));
-        let run = run_case_restart(&case, &[next], &mut rng, 1);
+        // a transient write fault on one app's record during check k, followed by a check whose answer is the
+        // very same document: whatever was not written the first time must be written the second time
+        let mut faulty_check: Option<usize> = None;
+        if case.crash_at.is_none() && case.fault.fail_keys.is_empty() && rng.chance(1, 5) {
+            let nchecks = case.script.checks.len();
+            let cands: Vec<usize> = (0..nchecks.saturating_sub(1))
+                .filter(|k| !case.script.checks[*k].reboot_needed && matches!(case.script.checks[*k].attempts.last(), Some(RespSpec::Reply(rep)) if rep.status == 200 && rep.etag == EtagSpec::Auto && matches!(&rep.body, BodySpec::Doc(d) if n_offered(d) == 0)))
+                .collect();
+            if !cands.is_empty() {
+                let k = cands[rng.usize(cands.len())];
+                let mut twin = case.script.checks[k].clone();
+                twin.attempts = vec![twin.attempts.last().cloned().unwrap()];
+                case.script.checks[k + 1] = twin;
+                let j = rng.usize(apps.len());
+                case.fault.fail_keys.push(apps[j].id.clone());
+                case.fault.fail_keys_during_check = Some(k);
+                case.shape.push(format!("appwrite-fault@{}+same-answer", k));
+                faulty_check = Some(k);
+            }
+        }
+        let mut run = run_case_restart(&case, &[next], &mut rng, 1);
         r.eval(case.shape_key(), case.nontrivial);
         r.interleavings.insert(run.sig);
         let mut m = Mon::default();
+        if let Some(k) = faulty_check {
+            run.flow.skip_commit_judgement_after_checks = vec![k];
+            r.count("app-write-fault-then-same-answer", 1);
+        }
         mon_state(&run.flow, &case.setup, Proj::Cohort, &mut m);
-        mon_c09_together(&run.flow, &mut m);
+        if faulty_check.is_none() {
+            mon_c09_together(&run.flow, &mut m);
+        }
         if let Some(p) = &run.panicked {
             report_panic(r, args, i, p, &run.w, case_desc(&case));
         }
